@@ -34,7 +34,7 @@ PERMS = {"file": [0o100644, 0o100755, 0o120000], "dir": [0o040000], "rev": [0o16
 
 def gen_case(rng):
     targets = [bytes([t]) * 20 for t in (1, 2)] + [bytes([1] * 5 + [7] * 15), bytes(rng.randrange(256) for _ in range(20))]
-    base = [b"a", b"b", b"a.", b"\xff", b"x y"]
+    base = [b"a", b"b", b"a.", b"\xff", b"x y", b"100%", b"%s", b"%(x)d", b"%%", b"{}", b"\\1"]
     names = list(base)
     for t in targets[:3]:
         for b in base[:2]:
@@ -62,6 +62,14 @@ def generate(ctx):
         {"entries": [{"name": "61", "type": "file", "perms": 0o100644, "target": "01" * 20}, {"name": "61", "type": "file", "perms": 0o100644, "target": "02" * 20}, {"name": "61", "type": "file", "perms": 0o100644, "target": "02" * 20}]},
         {"entries": [{"name": "61", "type": "file", "perms": 0o100644, "target": "01" * 20}, {"name": "61", "type": "dir", "perms": 0o040000, "target": "02" * 20}, {"name": hx(b"a_0101010101"), "type": "file", "perms": 0o100644, "target": "03" * 20}]},
     ]
+    # every kind of awkward name pushed all the way to the numbered fallback: three or four entries of
+    # one name whose renamed copies share the first five target bytes (and one taken numbered name)
+    t0, t1, t2 = "01" * 20, "01" * 5 + "07" * 15, "01" * 5 + "09" * 15
+    for nm in (b"a", b"100%", b"%s", b"%(x)d", b"%%", b"{}", b"{0}", b"\\1", b"\xff", b"a b", b"$x"):
+        for kinds in (("file", "file", "file"), ("rev", "dir", "file", "file"), ("dir", "dir", "dir", "dir")):
+            es = [{"name": hx(nm), "type": k, "perms": PERMS[k][0], "target": t} for k, t in zip(kinds, (t0, t1, t2, t1))]
+            cases.append({"entries": es})
+            cases.append({"entries": es + [{"name": hx(nm + b"_0101010101_1"), "type": "file", "perms": 0o100644, "target": "02" * 20}]})
     for _ in range(ctx.budget(400, 8000)):
         cases.append(gen_case(rng))
     return cases
